@@ -2,7 +2,7 @@
 (* Record-mode evaluation of observed edit calls against FcEdit (C03 C09 C18). *)
 EXTENDS FcEdit, EvalBase
 
-DS == JsonDeserialize(IOEnv.SCHEMA)
+DS == TLCEval(IndexDS(JsonDeserialize(IOEnv.SCHEMA)))
 
 \* {"chk":"edit","schema":..,"impl":..,"src":..,"ordered":BOOL,"pre":Tree,
 \*  "op":{"k":..,"at":Path,"s":Tree},"res":{"ok":BOOL,"err":..},"post":Tree}
